@@ -6,24 +6,49 @@ From MWF Require Import Base.Util Base.UtilLemmas Exec.ExecBase Exec.ExecGen Exe
 (** * Coupling between the state and the ledger.
     [P x]: a terminal report for [x] has been delivered to the ledger but not yet
     processed by the state; [Q x]: likewise a FINISHED report. *)
-Record J (P Q : nat -> Prop) (s : st) (L : base) : Prop := {
+Record J (d : bool) (P Q : nat -> Prop) (s : st) (L : base) : Prop := {
   j_live : forall x j, In (x, j) (live L) <-> In x (inprog s) /\ j = lastjob s x /\ ~ P x;
   j_nd : NoDup (map fst (live L));
-  j_succ1 : forall x, In x (completed s) -> In x (succ L);
+  j_succ1 : d = false -> forall x, In x (completed s) -> In x (succ L);
   j_succ2 : forall x, In x (succ L) -> In x (completed s) \/ Q x;
-  j_cseen : cseen L = canceled s }.
+  j_succ3 : forall x, Q x -> In x (succ L);
+  j_cseen : cseen L = canceled s;
+  j_dry : d = true -> succ L = [] }.
 
 Definition tpend (rs : list (nat * option State)) (x : nat) : Prop :=
   exists v, In (x, Some v) rs /\ terminal v = true.
 Definition pfin (rs : list (nat * option State)) (x : nat) : Prop := In (x, Some FINISHED) rs.
 Definition none (_ : nat) : Prop := False.
 
-Lemma J_ext (P Q P' Q' : nat -> Prop) s L : (forall x, P x <-> P' x) -> (forall x, Q x -> Q' x) -> J P Q s L -> J P' Q' s L.
+Lemma J_ext d (P Q P' Q' : nat -> Prop) s L :
+  (forall x, P x <-> P' x) -> (forall x, Q x <-> Q' x) -> J d P Q s L -> J d P' Q' s L.
 Proof.
-  intros HP HQ [A B C D E]. constructor; auto.
+  intros HP HQ [A B C D E F G]. constructor; auto.
   - intros x j. rewrite A, HP. tauto.
-  - intros x Hx. destruct (D x Hx); auto.
+  - intros x Hx. destruct (D x Hx); auto. right. apply HQ. assumption.
+  - intros x Hx. apply E, HQ, Hx.
 Qed.
+
+(** the coupling only reads the in-progress set, the latest job of its members,
+    the completed set and the cancel flag of the state, and the three core
+    fields of the ledger *)
+Definition core_eq (L L' : base) : Prop := live L' = live L /\ succ L' = succ L /\ cseen L' = cseen L.
+Lemma core_eq_refl L : core_eq L L. Proof. repeat split. Qed.
+Lemma core_eq_trans A B C : core_eq A B -> core_eq B C -> core_eq A C.
+Proof. unfold core_eq. intuition congruence. Qed.
+Lemma core_eq_sym A B : core_eq A B -> core_eq B A.
+Proof. unfold core_eq. intuition congruence. Qed.
+
+Lemma J_frame d P Q s s' L :
+  inprog s' = inprog s -> completed s' = completed s -> canceled s' = canceled s ->
+  (forall y, In y (inprog s) -> lastjob s' y = lastjob s y) -> J d P Q s L -> J d P Q s' L.
+Proof.
+  intros E1 E2 E3 E4 [A B C D E F G]. constructor; rewrite ?E1, ?E2, ?E3; auto.
+  intros x j. rewrite A. split; intros (H1 & H2 & H3); splits; auto; rewrite H2; [symmetry|]; auto.
+Qed.
+
+Lemma J_core d P Q s L L' : core_eq L L' -> J d P Q s L -> J d P Q s L'.
+Proof. intros (E1 & E2 & E3) [A B C D E F G]. constructor; rewrite ?E1, ?E2, ?E3; auto. Qed.
 
 (** * Per-event conditions that keep the verdict codes 1, 3, 4, 40, 41, 7, 71 silent *)
 Definition evA (c : cfg) (g : graph) (L : base) (e : event) : Prop :=
@@ -99,11 +124,6 @@ End Poll.
 
 
 (** * The submission retry loop *)
-Definition core_eq (L L' : base) : Prop := live L' = live L /\ succ L' = succ L /\ cseen L' = cseen L.
-Lemma core_eq_refl L : core_eq L L. Proof. repeat split. Qed.
-Lemma core_eq_trans A B C : core_eq A B -> core_eq B C -> core_eq A C.
-Proof. unfold core_eq. intuition congruence. Qed.
-
 Section Poll2.
 Variables (c : cfg) (g : graph) (p : pin) (L0 : base).
 Notation ledS := (led c g p L0).
@@ -123,6 +143,42 @@ Lemma next_sub_frame s : let '(b, s') := next_sub s in
   same_sets s s' /\ recs s' = recs s /\ evs s' = evs s /\ next_job s' = next_job s.
 Proof. unfold next_sub. destruct (subs s); cbn; repeat split. Qed.
 
+Definition pre_submit (x : nat) (restart : bool) (s : st) : st :=
+  let s := if restart then emit (EGen x) s else rec_set_status x PENDING s in
+  if scheduled (attr g x) then s else rec_set_status x RUNNING s.
+
+Lemma pre_submit_frame x restart s : x < length (recs s) ->
+  same_sets s (pre_submit x restart s) /\ length (recs (pre_submit x restart s)) = length (recs s) /\
+  (forall y, status (getrec s y) <> INITIALIZED -> status (getrec (pre_submit x restart s) y) <> INITIALIZED) /\
+  (forall y, lastjob (pre_submit x restart s) y = lastjob s y) /\
+  ledS (pre_submit x restart s) = ledS s /\ (cleanS (pre_submit x restart s) <-> cleanS s) /\
+  (restart = false -> status (getrec (pre_submit x restart s) x) <> INITIALIZED).
+Proof.
+  intros Hx. unfold pre_submit.
+  assert (NI : forall v w y s0, v <> INITIALIZED -> status (getrec s0 y) <> INITIALIZED ->
+                status (getrec (rec_set_status w v s0) y) <> INITIALIZED).
+  { intros v w y s0 Hv Hy. destruct (status_set_status w y v s0) as [->| ->]; auto. }
+  destruct restart, (scheduled (attr g x)).
+  - split; [repeat split|]. split; [reflexivity|]. split; [auto|]. split; [reflexivity|].
+    split; [rewrite led_emit; reflexivity|]. split; [rewrite clean_emit; cbn; tauto|]. discriminate.
+  - split; [repeat split|]. split; [rewrite len_recs_set_status; reflexivity|]. split.
+    { intros y Hy. apply NI; [discriminate|exact Hy]. }
+    split; [intros y; rewrite lastjob_set_status; reflexivity|].
+    split; [rewrite (led_frame (emit (EGen x) s)) by reflexivity; rewrite led_emit; reflexivity|].
+    split; [|discriminate].
+    rewrite (clean_frame (emit (EGen x) s)) by reflexivity. rewrite clean_emit. cbn. tauto.
+  - split; [repeat split|]. split; [apply len_recs_set_status|]. split.
+    { intros y Hy. apply NI; [discriminate|exact Hy]. }
+    split; [intros y; apply lastjob_set_status|].
+    split; [apply led_frame; reflexivity|]. split; [apply clean_frame; reflexivity|].
+    intros _. rewrite getrec_set_status_eq by auto. cbn. discriminate.
+  - split; [repeat split|]. split; [rewrite !len_recs_set_status; reflexivity|]. split.
+    { intros y Hy. apply NI; [discriminate|]. apply NI; [discriminate|exact Hy]. }
+    split; [intros y; rewrite !lastjob_set_status; reflexivity|].
+    split; [apply led_frame; reflexivity|]. split; [apply clean_frame; reflexivity|].
+    intros _. rewrite getrec_set_status_eq by (rewrite len_recs_set_status; auto). cbn. discriminate.
+Qed.
+
 Lemma submit_attempts_spec x restart : forall n s,
   x < length (recs s) -> cleanS s -> submit_pre x s ->
   let '(ok, s') := submit_attempts g x restart n s in
@@ -138,37 +194,14 @@ Lemma submit_attempts_spec x restart : forall n s,
       else live (ledS s') = live (ledS s) /\ succ (ledS s') = sadd x (succ (ledS s)))).
 Proof.
   induction n as [|n IH]; intros s Hx Hc Hp; cbn [submit_attempts].
-  - splits; auto; try discriminate; try apply same_sets_refl. intros _. split; [reflexivity|apply core_eq_refl].
-  - set (s1 := if restart then emit (EGen x) s else rec_set_status x PENDING s).
-    set (s2 := if scheduled (attr g x) then s1 else rec_set_status x RUNNING s1).
-    assert (F1 : same_sets s s1 /\ length (recs s1) = length (recs s) /\
-                 (forall y, status (getrec s y) <> INITIALIZED -> status (getrec s1 y) <> INITIALIZED) /\
-                 (forall y, lastjob s1 y = lastjob s y) /\ ledS s1 = ledS s /\ (cleanS s1 <-> cleanS s) /\
-                 (restart = false -> status (getrec s1 x) <> INITIALIZED)).
-    { subst s1. destruct restart.
-      - splits; auto; try discriminate;
-          try (rewrite led_emit; reflexivity); try (rewrite clean_emit; cbn; tauto).
-      - splits; auto.
-        + apply len_recs_set_status.
-        + intros y Hy. destruct (status_set_status x y PENDING s) as [->| ->]; auto; discriminate.
-        + intros y. apply lastjob_set_status.
-        + intros _. rewrite getrec_set_status_eq by auto. cbn. discriminate. }
-    destruct F1 as (A1 & A2 & A3 & A4 & A5 & A6 & A7).
-    assert (F2 : same_sets s s2 /\ length (recs s2) = length (recs s) /\
-                 (forall y, status (getrec s y) <> INITIALIZED -> status (getrec s2 y) <> INITIALIZED) /\
-                 (forall y, lastjob s2 y = lastjob s y) /\ ledS s2 = ledS s /\ (cleanS s2 <-> cleanS s) /\
-                 (restart = false -> status (getrec s2 x) <> INITIALIZED)).
-    { subst s2. destruct (scheduled (attr g x)); [exact (conj A1 (conj A2 (conj A3 (conj A4 (conj A5 (conj A6 A7))))))|].
-      splits; auto.
-      - eapply same_sets_trans; [exact A1 | apply same_sets_set_status].
-      - rewrite len_recs_set_status. exact A2.
-      - intros y Hy. destruct (status_set_status x y RUNNING s1) as [->| ->]; auto; discriminate.
-      - intros y. rewrite lastjob_set_status. apply A4.
-      - tauto.
-      - tauto.
-      - intros _. rewrite getrec_set_status_eq by lia. cbn. discriminate. }
-    clearbody s2. clear A1 A2 A3 A4 A5 A6 A7 s1.
-    destruct F2 as (A1 & A2 & A3 & A4 & A5 & A6 & A7).
+  - split; [apply same_sets_refl|]. split; [reflexivity|]. split; [exact Hc|]. split; [auto|].
+    split; [auto|]. split; [|discriminate]. intros _. split; [reflexivity|apply core_eq_refl].
+  - change (if scheduled (attr g x)
+            then if restart then emit (EGen x) s else rec_set_status x PENDING s
+            else rec_set_status x RUNNING (if restart then emit (EGen x) s else rec_set_status x PENDING s))
+      with (pre_submit x restart s).
+    destruct (pre_submit_frame x restart s Hx) as (A1 & A2 & A3 & A4 & A5 & A6 & A7).
+    set (s2 := pre_submit x restart s) in *. clearbody s2.
     pose proof (next_sub_frame s2) as NS. destruct (next_sub s2) as [b s3].
     destruct NS as (B1 & B2 & B3 & B4).
     assert (L3 : ledS s3 = ledS s) by (rewrite <- A5; apply led_frame; exact B3).
@@ -186,52 +219,48 @@ Proof.
       assert (LJx : lastjob (emit e s4) x = j).
       { change (lastjob (emit e s4) x) with (lastjob s4 x). subst s4.
         apply lastjob_push_job_eq. sp. rewrite B2. lia. }
-      splits.
-      * eapply same_sets_trans; [exact A1|]. eapply same_sets_trans; [exact B1|]. splits.
-      * sp. unfold rec_push_job. sp. rewrite length_upd, B2. exact A2.
-      * rewrite clean_emit. split.
-        { apply (clean_frame s3); [reflexivity | exact C3]. }
-        { assert (E : ledS s4 = ledS s) by (rewrite <- L3; apply led_frame; reflexivity).
-          rewrite E. cbn [evA]. splits; auto. }
-      * intros y Hy. change (getrec (emit e s4) y) with (getrec s4 y). subst s4.
+      assert (E : ledS s4 = ledS s) by (rewrite <- L3; apply led_frame; reflexivity).
+      split. { eapply same_sets_trans; [exact A1|]. eapply same_sets_trans; [exact B1|]. repeat split. }
+      split. { change (recs (emit e s4)) with (recs s4). subst s4. unfold rec_push_job. sp. rewrite length_upd, B2. exact A2. }
+      split. { rewrite clean_emit. split.
+        - apply (clean_frame s3); [reflexivity | exact C3].
+        - rewrite E. cbn [evA]. repeat split; auto. }
+      split. { intros y Hy. change (getrec (emit e s4) y) with (getrec s4 y). subst s4.
         rewrite status_push_job. change (getrec (set_next_job s3 (S j)) y) with (getrec s3 y).
-        rewrite ST3. auto.
-      * intros y Hy. change (lastjob (emit e s4) y) with (lastjob s4 y). subst s4.
-        rewrite lastjob_push_job_neq by auto. apply LJ3.
-      * discriminate.
-      * discriminate.
-      * intros Hr. change (getrec (emit e s4) x) with (getrec s4 x). subst s4.
+        rewrite ST3. auto. }
+      split. { intros y Hy. change (lastjob (emit e s4) y) with (lastjob s4 y). subst s4.
+        rewrite lastjob_push_job_neq by auto. apply LJ3. }
+      split; [discriminate|]. intros _.
+      split. { intros Hr. change (getrec (emit e s4) x) with (getrec s4 x). subst s4.
         rewrite status_push_job. change (getrec (set_next_job s3 (S j)) x) with (getrec s3 x).
-        rewrite ST3. auto.
-      * rewrite led_emit. assert (E : ledS s4 = ledS s) by (rewrite <- L3; apply led_frame; reflexivity).
-        rewrite E. subst e. cbn [step_base]. destruct (scheduled (attr g x)); reflexivity.
-      * rewrite led_emit. assert (E : ledS s4 = ledS s) by (rewrite <- L3; apply led_frame; reflexivity).
-        rewrite E, LJx. subst e. cbn [step_base]. destruct (scheduled (attr g x)); split; reflexivity.
+        rewrite ST3. auto. }
+      rewrite led_emit, E, LJx. subst e. cbn [step_base].
+      destruct (scheduled (attr g x)); repeat split.
     + (* failed attempt: recurse *)
       set (e := ESubmit x (if restart then Restart else Main) (scheduled (attr g x)) None).
       assert (L4 : core_eq (ledS s) (ledS (emit e s3))).
-      { rewrite led_emit, L3. subst e. cbn [step_base]. splits. }
+      { rewrite led_emit, L3. subst e. cbn [step_base]. repeat split. }
       assert (C4 : cleanS (emit e s3)).
       { rewrite clean_emit. split; [exact C3|]. rewrite L3. subst e. cbn [evA]. auto. }
-      destruct L4 as (D1 & D2 & D3).
+      pose proof L4 as (D1 & D2 & D3).
       specialize (IH (emit e s3)).
       assert (Hx4 : x < length (recs (emit e s3))) by (sp; rewrite B2; lia).
       assert (Hp4 : submit_pre x (emit e s3)).
-      { unfold submit_pre, live_of. rewrite D1, D2, D3. splits; auto. }
+      { unfold submit_pre, live_of. rewrite D1, D2, D3. repeat split; auto. }
       specialize (IH Hx4 C4 Hp4).
       destruct (submit_attempts g x restart n (emit e s3)) as [ok s'].
       destruct IH as (E1 & E2 & E3 & E4 & E5 & E6 & E7).
-      splits.
-      * eapply same_sets_trans; [exact A1|]. eapply same_sets_trans; [exact B1|]. exact E1.
-      * rewrite E2. sp. rewrite B2. exact A2.
-      * exact E3.
-      * intros y Hy. apply E4. change (getrec (emit e s3) y) with (getrec s3 y). rewrite ST3. auto.
-      * intros y Hy. rewrite E5 by auto. change (lastjob (emit e s3) y) with (lastjob s3 y). apply LJ3.
-      * destruct (E6 H) as [F1 F2]. rewrite F1. change (lastjob (emit e s3) x) with (lastjob s3 x). apply LJ3.
-      * destruct (E6 H) as [F1 F2]. eapply core_eq_trans; [|exact F2]. splits; auto.
-      * intros Hr. destruct (E7 H) as [F1 _]. auto.
-      * destruct (E7 H) as (_ & F2 & _). rewrite F2. exact D3.
-      * destruct (E7 H) as (_ & _ & F3). rewrite D1, D2 in F3. exact F3.
+      split. { eapply same_sets_trans; [exact A1|]. eapply same_sets_trans; [exact B1|]. exact E1. }
+      split. { rewrite E2. sp. rewrite B2. exact A2. }
+      split; [exact E3|].
+      split. { intros y Hy. apply E4. change (getrec (emit e s3) y) with (getrec s3 y). rewrite ST3. auto. }
+      split. { intros y Hy. rewrite E5 by auto. change (lastjob (emit e s3) y) with (lastjob s3 y). apply LJ3. }
+      split.
+      { intros H. destruct (E6 H) as [F1 F2]. split.
+        - rewrite F1. change (lastjob (emit e s3) x) with (lastjob s3 x). apply LJ3.
+        - eapply core_eq_trans; [exact L4|exact F2]. }
+      intros H. destruct (E7 H) as (F1 & F2 & F3). split; [exact F1|]. split; [rewrite F2; exact D3|].
+      rewrite D1, D2 in F3. exact F3.
 Qed.
 
 End Poll2.
